@@ -6,6 +6,11 @@ def _legs(tier):
     return [
         {"name": "at", "driver": "proxy", "env": {"FLAVOUR": "at", "MAXSTEPS": steps},
          "gen": [("Proxy_MC", "Proxy_Gen.cfg")], "trace": ("Proxy_Trace", "Proxy_Trace.cfg"), "shards": 4},
+        # longer programs over few statement kinds: a failing statement in the middle of a transaction
+        {"name": "at-mid", "driver": "proxy", "env": {"FLAVOUR": "at", "MAXSTEPS": "3"},
+         "gen": [("Proxy_MC", "Proxy_GenMid.cfg")], "trace": ("Proxy_Trace", "Proxy_Trace.cfg"), "shards": 4},
+        {"name": "xa-mid", "driver": "proxy", "env": {"FLAVOUR": "xa", "MAXSTEPS": "3"},
+         "gen": [("Proxy_MC", "Proxy_GenMid.cfg")], "trace": ("Proxy_Trace", "Proxy_Trace.cfg"), "shards": 2},
         {"name": "xa", "driver": "proxy", "env": {"FLAVOUR": "xa", "MAXSTEPS": "2"},
          "gen": [("Proxy_MC", "Proxy_Gen.cfg")], "trace": ("Proxy_Trace", "Proxy_Trace.cfg"), "shards": 2},
     ]
